@@ -345,7 +345,39 @@ def w_align(ctx, rng, i):
             tgt[:, 0] = -tgt[:, 0]
             mirrored_target = True
         S, T = ms.PointCloud(src), ms.PointCloud(tgt)
+        if rng.random() < 0.25 and len(src) >= 5:
+            # the point sets are meshes some of whose vertices no triangle uses (landmark vertices added to a surface, a mesh cut
+            # by a triangle mask): an alignment is a statement about the point sets
+            def loose(p_):
+                k_ = int(rng.integers(3, len(p_) - 1))
+                tl_ = np.array([rng.choice(k_, 3, replace=False) for _ in range(int(rng.integers(1, 5)))])
+                return ms.TriMesh(p_, trilist=tl_)
+            w_ = int(rng.integers(0, 3))
+            if w_ in (0, 2):
+                S = loose(src)
+            if w_ in (1, 2):
+                T = loose(tgt)
+            ctx.bump("meshes_with_vertices_no_triangle_uses")
         t = getattr(mt, kind)(S, T, **opts)
+        if rng.random() < 0.3 and not int_src:
+            # the same point sets in single precision (what a float32 pipeline hands over): accepted, and the same fit to
+            # single-precision accuracy
+            with taps.quiet():
+                try:
+                    t32 = getattr(mt, kind)(ms.PointCloud(np.asarray(src, dtype=np.float32)), ms.PointCloud(np.asarray(tgt, dtype=np.float32)), **opts)
+                    pr_ = np.asarray(src, dtype=float)
+                    e32 = tx.maxdiff(np.asarray(t32.apply(pr_.copy()), dtype=float), np.asarray(t.apply(pr_.copy()), dtype=float))
+                except Exception as ex_:
+                    t32, e32 = None, repr(ex_)[:160]
+            ctx.tap("single_precision_point_sets", "calls"); ctx.tap("single_precision_point_sets", "checked")
+            sc32 = max(1.0, float(np.abs(src).max()), float(np.abs(tgt).max()))
+            c32 = float(np.linalg.cond((np.asarray(src, dtype=float) - np.asarray(src, dtype=float).mean(0)) / sc32))
+            if t32 is None:
+                ctx.fail("alignment_refuses_single_precision_point_sets", cls=kind, mech=e32.split("(")[0], error=e32)
+            elif c32 < 1e3 and float(np.abs(np.asarray(src, dtype=float).mean(0)).max()) < 30 * float(np.ptp(np.asarray(src, dtype=float), axis=0).max()):
+                ctx.err("single_precision_fit_vs_double_rel", e32 / sc32)
+                if not (e32 <= 2e-2 * sc32):
+                    ctx.fail("single_precision_fit_differs_from_the_double_precision_fit", cls=kind, mech=str(sorted((k_, bool(v_)) for k_, v_ in opts.items())), err=e32)
         if noise == 0.0 and not mirrored_target:
             # exact recovery of the family member
             h = np.asarray(t.h_matrix)
